@@ -425,12 +425,11 @@ def execute(plan):
                           % (detail, pt, plan["kind"], plan["entry"]),
                 "plan": focused, "plan_full": full})
 
-        base, problems, recon = ctx.run(store0, [], "baseline")
-        out["evaluations"] += 1
         # probe: the same text WITHOUT its %import lines (it uses section
-        # types it no longer imports).  What it gives on this schema object
-        # now is what it must give after any failed load -- a failed load
-        # that got as far as its %import leaves nothing behind
+        # types it no longer imports).  What it gives on the untouched schema
+        # object (before the baseline load) is what it must give after any
+        # failed load -- a load that got as far as its %import leaves
+        # nothing behind
         probe_store = probe_base = None
         if plan["kind"] == "config" and not plan.get("reuse_loader") \
                 and any(ln.lstrip().lower().startswith("%import")
@@ -443,6 +442,8 @@ def execute(plan):
                 else t) for u, t in store0.items()}
             probe_base, _pp, _pr = ctx.run(probe_store, [], "probe-baseline")
             out["evaluations"] += 1
+        base, problems, recon = ctx.run(store0, [], "baseline")
+        out["evaluations"] += 1
         for clause, detail in problems:
             violation(clause, detail, {"faults": []}, "none")
         out["log"].append("baseline: %s; recon %r" % (ops.brief(base), recon))
